@@ -690,7 +690,7 @@ func TestGen(t *testing.T) {
 		"one list or flag (always true for generated configs; the default config is the single trivial case)."
 	rnd := vlib.NewRand(vlib.Seed() ^ 0xC20)
 	id := 0
-	nCfg := vlib.Scale(56, 1500)
+	nCfg := vlib.Scale(48, 700)
 	nOut := vlib.Scale(36, 108)
 	nPre := vlib.Scale(18, 54)
 	chunk := 18
